@@ -12,9 +12,12 @@ THEOREMS = {'C01': ['Cctz.C01.breakTime_table', 'Cctz.C01.breakTime_shift', 'Cct
                     'Cctz.C01Decode.load_rejects', 'Cctz.C01Decode.load_accepts',
                     'Cctz.C01Glue.lookup_follows_rule', 'Cctz.C01Glue.regular_of_civilYear', 'Cctz.C01Glue.regular_needed',
                     'Cctz.C01Glue.first_wording_false', 'Cctz.C01Glue.extendedBy_degenerate'],
-            'C02': ['Cctz.C02.farApart_separated', 'Cctz.C02.makeTime', 'Cctz.C02.shift', 'Cctz.C02.makeTime_needs_TimesInRange', 'Cctz.C02.shift_needs_after_last'],
-            'C03': ['Cctz.C03.roundtrip', 'Cctz.C03.converse'],
-            'C06': ['Cctz.C06.convert_monotone', 'Cctz.C06.convert_def', 'Cctz.C06.convert_monotone_needs_TimesInRange', 'Cctz.C06.convert_monotone_needs_FirstEntryRoom'],
+            'C02': ['Cctz.C02.farApart_separated', 'Cctz.C02.makeTime', 'Cctz.C02.shift', 'Cctz.C02.makeTime_needs_TimesInRange', 'Cctz.C02.shift_needs_after_last',
+                    'Cctz.Seam.offFull_hint', 'Cctz.Seam.offFull_table', 'Cctz.Seam.offFull_period', 'Cctz.Seam.makeTime_full', 'Cctz.Seam.makeTime_clamped',
+                    'Cctz.Seam.seamOKb_iff', 'Cctz.Seam.seamOK_notExtended', 'Cctz.Seam.seamOK_of_rule', 'Cctz.Seam.makeTime_full_needs_SeamOK'],
+            'C03': ['Cctz.C03.roundtrip', 'Cctz.C03.converse', 'Cctz.Seam.roundtrip_full', 'Cctz.Seam.roundtrip_full_needs_SeamOK', 'Cctz.Seam.roundtrip_full_needs_ShiftRoom'],
+            'C06': ['Cctz.C06.convert_monotone', 'Cctz.C06.convert_def', 'Cctz.C06.convert_monotone_needs_TimesInRange', 'Cctz.C06.convert_monotone_needs_FirstEntryRoom',
+                    'Cctz.Seam.convert_monotone_full', 'Cctz.Seam.convert_monotone_needs_SeamOK', 'Cctz.Seam.convert_monotone_needs_below'],
             'C10': ['Cctz.C10.saturate_max', 'Cctz.C10.saturate_max_small', 'Cctz.C10.saturate_min', 'Cctz.C10.saturate_min_small',
                     'Cctz.C10.max_roundtrip', 'Cctz.C10.min_roundtrip', 'Cctz.C10.saturate_max_needs_time_bound',
                     'Cctz.C10Safe.makeTime_ok', 'Cctz.C10Safe.convert_ok', 'Cctz.C10Safe.transitions_ok', 'Cctz.C10Safe.results_in_range',
@@ -190,13 +193,19 @@ class CivilOracle:
         self.win_end = self.ch[-1] if (zone.has_rule and self.ch) else None
 
     def changes_near(self, x, lo_off, hi_off):
-        """change instants T with x - hi_off - 1 <= T <= x - lo_off + 1 (unbounded future via periodicity)"""
-        k = 0
-        if self.win_end is not None and x - lo_off + 1 > self.win_end - 86400 * 400:
-            k = max(0, (x - self.win_end) // K400 + 2)
-        xx = x - k * K400
-        a = bisect.bisect_left(self.ch, xx - hi_off - 1); b = bisect.bisect_right(self.ch, xx - lo_off + 1)
-        return [T + k * K400 for T in self.ch[a:b]]
+        """change instants T with x - hi_off - 1 <= T <= x - lo_off + 1: recorded ones, and beyond the last recorded one
+        the rule instants of the civil years around x (any year: the calendar repeats every 400 years)"""
+        zn = self.zone
+        lo_t, hi_t = x - hi_off - 1, x - lo_off + 1
+        rec = zn.z.times
+        out = set(rec[bisect.bisect_left(rec, lo_t):bisect.bisect_right(rec, hi_t)])
+        if zn.has_rule:
+            last = rec[-1] if rec else I64MIN
+            y = C.civil_of_sec(x)[0]
+            for yy in (y - 1, y, y + 1):
+                for T in zn.rule_instants(yy):
+                    if lo_t <= T <= hi_t and T > last: out.add(T)
+        return sorted(out)
 
     def lookup(self, cs):
         x = C.sec_num(cs)
@@ -229,12 +238,12 @@ def civil_blocks(chk, zones, scale, op='mt', shuffle_too=False):
 
 
 def run_C02(chk):
-    chk.prepare_model('Cctz.Properties.C02', THEOREMS['C02'])
+    chk.prepare_model(['Cctz.Properties.C02', 'Cctz.Properties.Seam'], THEOREMS['C02'])
     exe = chk.harness('san')
     scale = chk.tier if not (chk.broken or chk.degraded) else 'thorough'
     if exe is None or not getattr(chk, 'driver_ok', False):
         return chk.finish()
-    zones = pick_corpus(chk, scale)
+    zones = pick_corpus(chk, scale) + Z.seam_zones()
     blocks, meta = civil_blocks(chk, zones, scale, shuffle_too=True)
     mo, io = run_blocks(chk, exe, blocks, 'civil-lookup')
     note_mismatches(chk, blocks, mo, io, 'civil-lookup')
@@ -272,12 +281,12 @@ def run_C02(chk):
 # ------------------------------------------------------------------------------------ C03
 
 def run_C03(chk):
-    chk.prepare_model('Cctz.Properties.C03', THEOREMS['C03'])
+    chk.prepare_model(['Cctz.Properties.C03', 'Cctz.Properties.Seam'], THEOREMS['C03'])
     exe = chk.harness('san')
     scale = chk.tier if not (chk.broken or chk.degraded) else 'thorough'
     if exe is None or not getattr(chk, 'driver_ok', False):
         return chk.finish()
-    zones = pick_corpus(chk, scale)
+    zones = pick_corpus(chk, scale) + Z.seam_zones()
     blocks = []; meta = []
     for i, zn in enumerate(zones):
         ts = [t for t in Z.probe_instants(zn, chk.rng, per_transition=3 if scale == 'quick' else 8, n_random=50 if scale == 'quick' else 300)
@@ -338,12 +347,12 @@ def run_C03(chk):
 # ------------------------------------------------------------------------------------ C06
 
 def run_C06(chk):
-    chk.prepare_model('Cctz.Properties.C06', THEOREMS['C06'])
+    chk.prepare_model(['Cctz.Properties.C06', 'Cctz.Properties.Seam'], THEOREMS['C06'])
     exe = chk.harness('san')
     scale = chk.tier if not (chk.broken or chk.degraded) else 'thorough'
     if exe is None or not getattr(chk, 'driver_ok', False):
         return chk.finish()
-    zones = pick_corpus(chk, scale)
+    zones = pick_corpus(chk, scale) + Z.seam_zones()
     blocks, meta = civil_blocks(chk, zones, scale, op='cv', shuffle_too=True)
     mo, io = run_blocks(chk, exe, blocks, 'convert')
     note_mismatches(chk, blocks, mo, io, 'convert')
@@ -393,6 +402,9 @@ def run_C11(chk):
     if exe is None or not getattr(chk, 'driver_ok', False):
         return chk.finish()
     zones = pick_corpus(chk, scale)
+    # files that must be rejected (two changes at one instant, changes that cross in civil time): while they are rejected nothing is
+    # asked of them; a tree that loads them has to enumerate them consistently
+    zones = zones + Z.rejected_zones()
     # what the zone's data says: recorded + generated changes that alter something
     blocks = []; meta = []
     for i, zn in enumerate(zones):
@@ -408,12 +420,21 @@ def run_C11(chk):
         qs = sorted(q for q in qs if I64MIN <= q <= I64MAX)
         b = [load_line(i, zn)]
         for q in qs: b += ['nt %s %d' % (zid(i), q), 'pt %s %d' % (zid(i), q)]
+        # the public templates on sub-second time points: "strictly after / before" an instant with a fraction
+        sub = []
+        cand = [t for t in real if abs(t) < 2**50]
+        for t in (cand[:2] + cand[-2:] + (chk.rng.sample(cand, min(4, len(cand))) if cand else [])):
+            for D in (1000, 3):
+                for r in (-(D - 1), -1, 0, 1, D - 1):
+                    sub.append((D, t * D + r))
+        sub = sorted(set(sub))
+        for D, c in sub: b.append('subtr %s %d %d' % (zid(i), D, c))
         b += [preds_line(i), 'ntchain %s' % zid(i), 'ptchain %s' % zid(i)]
-        blocks.append(b); meta.append((qs, real))
+        blocks.append(b); meta.append((qs, real, sub))
     mo, io = run_blocks(chk, exe, blocks, 'transitions')
     note_mismatches(chk, blocks, mo, io, 'transitions')
     good = 0
-    for zn, out, (qs, real) in zip(zones, io, meta):
+    for zn, out, (qs, real, sub) in zip(zones, io, meta):
         if not out[0].startswith('ok'): continue
         def want(T):
             if T is None: return 'none'
@@ -442,11 +463,24 @@ def run_C11(chk):
                 else:
                     good += 1
                     chk.count(kind + (':none' if T is None else ':found'))
+        for j, (D, c) in enumerate(sub):
+            o = out[1 + 2 * len(qs) + j]
+            fl = c // D                      # floor
+            ce = -((-c) // D)                # ceiling
+            jn = bisect.bisect_right(real, fl); nxt = real[jn] if jn < len(real) else None            # T > c/D  <=>  T > floor
+            jp = bisect.bisect_left(real, ce); prv = real[jp - 1] if jp > 0 else None                  # T < c/D  <=>  T < ceiling
+            w = 'N %s | P %s' % (want(nxt), want(prv))
+            if o != w:
+                chk.report('%s: next/prev_transition of the instant %d/%d s = `%s`; the earliest real change strictly after and the latest strictly before that instant are `%s`' % (zn.name, c, D, o, w),
+                           {'zone': zn.name, 'tzif_hex': Z.hx(zn.data), 'op': 'subtr %d %d' % (D, c), 'implementation': o, 'specification': w},
+                           sig='%s subsecond %s' % (zn.name, 'prev' if o.split(' | ')[0] == w.split(' | ')[0] else 'next'))
+            else:
+                good += 1; chk.count('subsecond:ok')
     chk.cov['distinct_nontrivial'] = good
     chk.cov['zones'] = len(zones)
     chk.cov['rule'] = ('per zone: query instants equal to each (sampled) real change, one second either side, at no-op entries, min() and max(); next_transition / prev_transition compared with the model and with the '
                        'list of instants at which (offset, dst, abbreviation) really changes according to the zone semantics (independent reader), including the 401 rule-generated years; '
-                       '`from`/`to` recomputed from the offsets before and after; non-trivial = answers that matched')
+                       '`from`/`to` recomputed from the offsets before and after; the public templates on millisecond and third-of-a-second time points one tick either side of sampled changes; non-trivial = answers that matched')
     for bi in (0, len(blocks) - 1):
         chk.sample({'zone': zones[bi].name, 'ops': blocks[bi][1:5], 'implementation': io[bi][1:5]})
     return chk.finish()
@@ -585,15 +619,20 @@ def run_C14(chk):
                 ['cv {z} %s' % C.fmt(probes_c[0]), 'nt {z} %d' % probes_t[0], 'pt {z} %d' % probes_t[1]]
         b = ['zone %s loose %s' % (a, Z.hx(zn.data)), 'zone %s loose %s' % (f, Z.hx(zn.data))]
         m = [None, None]
-        # reference answers from the copy without history
-        for q in panel: b.append(q.format(z=f)); m.append(('ref', q))
-        # every hidden state: one preceding query per table index sets the hint, then the panel
         times = zn.z.times
         idxs = range(len(times)) if (scale != 'quick' or len(times) <= 24) else sorted(rng.sample(range(len(times)), 24))
+        # transition queries at the very instant the preceding lookup was about
+        at = {k: ['pt {z} %d' % times[k], 'nt {z} %d' % times[k], 'pt {z} %d' % (times[k] + 1), 'nt {z} %d' % (times[k] - 1)] for k in idxs}
+        # reference answers from the copy without history
+        for q in panel + [q for k in idxs for q in at[k]]: b.append(q.format(z=f)); m.append(('ref', q))
+        # every hidden state: one preceding query per table index sets the hint, then the panel
         for k in idxs:
             t = times[k]
             o = zn.offset_at(t)[0]
             b.append('bt %s %d' % (a, t)); m.append(('set', None))
+            for q in at[k]:
+                b.append(q.format(z=a)); m.append(('probe', q))
+                b.append('bt %s %d' % (a, t)); m.append(('set', None))
             b.append('mt %s %s' % (a, C.fmt(C.civil_of_sec(t + o + 1)))); m.append(('set', None))
             sub = panel if len(idxs) <= 30 else rng.sample(panel, 6)
             for q in sub: b.append(q.format(z=a)); m.append(('probe', q))
